@@ -251,9 +251,6 @@ impl Prop for C06 {
     fn id(&self) -> &'static str {
         "C06"
     }
-    fn fresh_thread_cases(&self) -> bool {
-        false // the guard-page arena is mapped once per thread and kept for the life of the process
-    }
     fn rule(&self) -> String {
         "Generated strings: (1) grammar-derived literals (sign, 0..=80 integer digits, 0..=45 fraction digits, exponents with sign, leading zeros, up to 30 exponent digits), digit strings constructed around 10^38, 2^127, 2^128, digit strings 2^k + d (k in 8,16,31,32,53,63,64,96,127,128) extended by free digits with the radix point at every position and leading integer / fraction zeros, k*2^128+[10^38,2^127) (39-digit values that wrap), 2^256, 40+ digits, with radix points and compensating exponents, coefficient*10^exp at the i128 edge, fraction-exponent in {17,18,19}; \
          (2) near misses: one or two insert/delete/replace edits of a valid literal with digits, signs, '.', 'e', '_', blanks, NUL, non-ASCII digits, multi-byte characters; (3) arbitrary Unicode strings and lossy-decoded random bytes, long inputs (up to ~6000 bytes: thousands of leading zeros, fraction zeros, exponent zeros, digits); (4) a fixed list of corner literals. \
